@@ -84,7 +84,7 @@ def run_inproc(argv, cwd=None, reset=True):
     return r
 
 
-def run_subprocess(argv, cwd=None, env=None, hashseed="0", timeout=120):
+def run_subprocess(argv, cwd=None, env=None, hashseed="0", timeout=900):
     e = dict(os.environ)
     e["PYTHONPATH"] = REPO
     e["PYTHONHASHSEED"] = str(hashseed)
